@@ -10,6 +10,9 @@
    The loader (dlopen/dlsym/dlclose/dlerror) is the assumed environment; which files and symbols exist is a
    parameter (world).  std::shared_ptr's counting (copy +1, destroy -1, deleter run by the last owner — ALSO for a
    null pointer that was given a deleter) is written out as specified and assumed, not verified.
+   dl and symbol have only implicitly defined copy/move constructors and assignment operators (member-wise): the
+   model writes those out too — an owner object whose shared_ptr member was moved from stays in the pool as a
+   NULL owner (a moved-from symbol keeps its function pointer but owns nothing).
    Definitions only; proofs in DlProofs.v. *)
 From Coq Require Import List Arith Bool.
 From Nitro Require Import Own.Count.
@@ -19,8 +22,15 @@ Local Open Scope list_scope.
 Record world := mkWorld { lib_exists : nat -> bool; sym_exists : nat -> nat -> bool }.
 
 Record hrec := mkH { hlib : nat; refs : nat; closes : nat }.
-Inductive owner := OLib (h : nat) | OSym (h s : nat) | ORaw (h : nat).
-Definition owner_h (o : owner) : nat := match o with OLib h | OSym h _ | ORaw h => h end.
+(* an owner object and the handle its shared_ptr member refers to (None: null, e.g. moved from).
+   A symbol also holds a function pointer: function s of the library instance opened as handle fh. *)
+Inductive owner := OLib (h : option nat) | OSym (h : option nat) (fh s : nat) | ORaw (h : option nat).
+Definition owner_h (o : owner) : option nat := match o with OLib h | OSym h _ _ | ORaw h => h end.
+(* the same object with its shared_ptr member replaced *)
+Definition with_h (o : owner) (h : option nat) : owner :=
+  match o with OLib _ => OLib h | OSym _ fh s => OSym h fh s | ORaw _ => ORaw h end.
+Definition same_kind (a b : owner) : bool :=
+  match a, b with OLib _, OLib _ | OSym _ _ _, OSym _ _ _ | ORaw _, ORaw _ => true | _, _ => false end.
 (* the loader's diagnostic text, abstractly: what failed *)
 Inductive diag := DgOpen (f : nat) | DgSym (lib s : nat).
 Record dstate := mkD { hs : list hrec; slots : list (option owner); pend : option diag; null_closes : nat }.
@@ -65,6 +75,9 @@ Definition sp_drop (st : dstate) (h : nat) : dstate :=
   if Nat.eqb (refs_of st1 h) 0 then deleter st1 (Some h) else st1.
 (* the only owner of a NULL pointer that carries a deleter goes away: the deleter runs on nullptr *)
 Definition sp_drop_null (st : dstate) : dstate := deleter st None.
+(* copying / destroying a shared_ptr that may be empty (moved from: no control block, nothing happens) *)
+Definition sp_copy_opt (st : dstate) (h : option nat) : dstate := match h with Some x => sp_copy st x | None => st end.
+Definition sp_drop_opt (st : dstate) (h : option nat) : dstate := match h with Some x => sp_drop st x | None => st end.
 
 (* ---- outcomes ---- *)
 Inductive dres :=
@@ -77,8 +90,11 @@ Inductive dop :=
 | DOpen (i f : nat)          (* slots[i] = dl(file f) *)
 | DLoad (i j s : nat)        (* slots[i] = slots[j].load<int(int)>(name s)        slot j: library object *)
 | DGet (i j : nat)           (* slots[i] = slots[j].get()                         slot j: library object *)
-| DCopy (i j : nat)          (* slots[i] = copy of slots[j]                       any owner *)
-| DMove (i j : nat)          (* slots[i] = std::move(slots[j]); slots[j] destroyed *)
+| DCopy (i j : nat)          (* new object in slot i copy-constructed from slots[j]       any owner *)
+| DMove (i j : nat)          (* new object in slot i move-constructed from slots[j]; slots[j] stays, moved from *)
+| DAssign (i j : nat)        (* slots[i] = slots[j]                 two existing objects of the same kind, i = j allowed *)
+| DMoveAssign (i j : nat)    (* slots[i] = std::move(slots[j])      two existing objects of the same kind, i = j allowed *)
+| DSwap (i j : nat)          (* using std::swap; swap(slots[i], slots[j])      two existing objects of the same kind *)
 | DDrop (i : nat)            (* slots[i] destroyed *)
 | DCall (i x : nat)          (* slots[i](x)                                       slot i: symbol *)
 | DStale (f : nat).          (* unrelated code leaves a loader error pending (a failed call without dlerror()) *)
@@ -117,39 +133,71 @@ Definition d_step (w : world) (st : dstate) (o : dop) : dstate * dres :=
   | DOpen i f =>
       if slot_empty st i then
         let '(st1, r, res) := dl_ctor w st f in
-        match r with Some h => (set_slot st1 i (Some (OLib h)), res) | None => (st1, res) end
+        match r with Some h => (set_slot st1 i (Some (OLib (Some h))), res) | None => (st1, res) end
       else (st, DSkip)
   | DLoad i j s =>
       match slot_empty st i, slot_owner st j with
-      | true, Some (OLib h) =>
+      | true, Some (OLib (Some h)) =>
           let '(st1, ok, res) := symbol_ctor w st h s in
-          if ok then (set_slot st1 i (Some (OSym h s)), res) else (st1, res)
+          if ok then (set_slot st1 i (Some (OSym (Some h) h s)), res) else (st1, res)
       | _, _ => (st, DSkip)
       end
   | DGet i j =>
       match slot_empty st i, slot_owner st j with
-      | true, Some (OLib h) => (set_slot (sp_copy st h) i (Some (ORaw h)), DOk)
+      | true, Some (OLib h) => (set_slot (sp_copy_opt st h) i (Some (ORaw h)), DOk)
       | _, _ => (st, DSkip)
       end
   | DCopy i j =>
+      (* implicit copy constructor: member-wise; the shared_ptr member is copied *)
       match slot_empty st i, slot_owner st j with
-      | true, Some o => (set_slot (sp_copy st (owner_h o)) i (Some o), DOk)
+      | true, Some o => (set_slot (sp_copy_opt st (owner_h o)) i (Some o), DOk)
       | _, _ => (st, DSkip)
       end
   | DMove i j =>
+      (* implicit move constructor: the shared_ptr member is moved (source left null, no count changes),
+         a function pointer is copied *)
       match slot_empty st i, slot_owner st j with
-      | true, Some o => (set_slot (set_slot st i (Some o)) j None, DOk)
+      | true, Some o => (set_slot (set_slot st i (Some o)) j (Some (with_h o None)), DOk)
+      | _, _ => (st, DSkip)
+      end
+  | DAssign i j =>
+      (* implicit copy assignment: member-wise; shared_ptr::operator=(const&) takes the new reference first and
+         then releases the old one *)
+      match slot_owner st i, slot_owner st j with
+      | Some a, Some b =>
+          if same_kind a b then
+            let st1 := sp_copy_opt st (owner_h b) in
+            (sp_drop_opt (set_slot st1 i (Some b)) (owner_h a), DOk)
+          else (st, DSkip)
+      | _, _ => (st, DSkip)
+      end
+  | DMoveAssign i j =>
+      (* implicit move assignment: shared_ptr(std::move(r)).swap( *this ) — the source is left null, the target's old
+         reference is released; on itself nothing changes *)
+      match slot_owner st i, slot_owner st j with
+      | Some a, Some b =>
+          if same_kind a b then
+            if Nat.eqb i j then (st, DOk)
+            else (sp_drop_opt (set_slot (set_slot st i (Some b)) j (Some (with_h b None))) (owner_h a), DOk)
+          else (st, DSkip)
+      | _, _ => (st, DSkip)
+      end
+  | DSwap i j =>
+      (* std::swap: T tmp(std::move(a)); a = std::move(b); b = std::move(tmp);  — contents exchanged, no count changes *)
+      match slot_owner st i, slot_owner st j with
+      | Some a, Some b =>
+          if same_kind a b then (set_slot (set_slot st i (Some b)) j (Some a), DOk) else (st, DSkip)
       | _, _ => (st, DSkip)
       end
   | DDrop i =>
       match slot_owner st i with
-      | Some o => (sp_drop (set_slot st i None) (owner_h o), DOk)
+      | Some o => (sp_drop_opt (set_slot st i None) (owner_h o), DOk)
       | None => (st, DSkip)
       end
   | DCall i x =>
       match slot_owner st i with
-      | Some (OSym h s) =>
-          match nth_error (hs st) h with
+      | Some (OSym (Some _) fh s) =>         (* a symbol that owns a library; a moved-from symbol is never called *)
+          match nth_error (hs st) fh with
           | Some r => if Nat.eqb (closes r) 0 then (st, DCallOk (hlib r) s x) else (st, DUnmapped)
           | None => (st, DUnmapped)
           end
@@ -169,13 +217,13 @@ Fixpoint d_trace (w : world) (st : dstate) (ops : list dop) : list (dstate * dre
 Fixpoint d_drop_from (st : dstate) (i n : nat) : dstate :=
   match n with
   | 0 => st
-  | S m => let st' := match slot_owner st i with Some o => sp_drop (set_slot st i None) (owner_h o) | None => st end in
+  | S m => let st' := match slot_owner st i with Some o => sp_drop_opt (set_slot st i None) (owner_h o) | None => st end in
            d_drop_from st' (S i) m
   end.
 Definition d_finish (st : dstate) : dstate := d_drop_from st 0 (length (slots st)).
 
 (* ---- spec side (oracle): what the property demands of an observed state ---- *)
-Definition okey (o : option owner) : option nat := match o with Some x => Some (owner_h x) | None => None end.
+Definition okey (o : option owner) : option nat := match o with Some x => owner_h x | None => None end.
 
 Fixpoint handles_ok_from (h : nat) (l : list hrec) (sl : list (option owner)) : bool :=
   match l with
@@ -185,7 +233,7 @@ Fixpoint handles_ok_from (h : nat) (l : list hrec) (sl : list (option owner)) : 
       Nat.eqb (closes r) (if Nat.eqb (cnt okey h sl) 0 then 1 else 0) && handles_ok_from (S h) rest sl
   end.
 Definition owner_in_range (n : nat) (o : option owner) : bool :=
-  match o with Some x => Nat.ltb (owner_h x) n | None => true end.
+  match okey o with Some h => Nat.ltb h n | None => true end.
 Definition d_state_ok (st : dstate) : bool :=
   handles_ok_from 0 (hs st) (slots st) && Nat.eqb (null_closes st) 0 && forallb (owner_in_range (length (hs st))) (slots st).
 Definition all_closed_once (st : dstate) : bool := forallb (fun r => Nat.eqb (closes r) 1) (hs st).
